@@ -81,11 +81,28 @@ Definition shape_step (ll : layout) (c l : list R) (st : layout * option R) (o :
   | GSecondSum => (fst st, Some (bcast_sum (fst st) ll c l))
   | _ => st
   end.
-(* on the generated statement lists the second loss is sum_i c_i * loss_i for both layouts of the losses, plain and adaptive *)
-Theorem second_loss_is_weighted_sum (ll : layout) (c l : list R) :
-  snd (fold_left (shape_step ll c l) ghost_backward_ops (LVec, None)) = Some (rdot c l) /\
-  snd (fold_left (shape_step ll c l) ghost_adaptive_backward_ops (LVec, None)) = Some (rdot c l).
-Proof. destruct ll; split; reflexivity. Qed.
+(* on the generated statement lists the second loss is sum_i c_i * loss_i when the criterion returns a VECTOR of per-sample losses, plain and adaptive *)
+Theorem second_loss_is_weighted_sum_vec (c l : list R) :
+  snd (fold_left (shape_step LVec c l) ghost_backward_ops (LVec, None)) = Some (rdot c l) /\
+  snd (fold_left (shape_step LVec c l) ghost_adaptive_backward_ops (LVec, None)) = Some (rdot c l).
+Proof. split; reflexivity. Qed.
+(* ... and for both layouts on any statement list that re-lays the coefficients out before the product (the repair; not the code today) *)
+Theorem second_loss_is_weighted_sum_shaped (ll : layout) (c l : list R) (pre post : list gop) :
+  (forall o, In o pre -> o <> GSecondSum) -> (forall o, In o post -> o <> GSecondSum /\ o <> GClipCoef /\ o <> GShapeCoef) ->
+  snd (fold_left (shape_step ll c l) (pre ++ [GShapeCoef; GSecondLoss; GSecondSum] ++ post) (LVec, None)) = Some (rdot c l).
+Proof.
+  intros Hpre Hpost. rewrite fold_left_app.
+  assert (P : forall ops st, (forall o, In o ops -> o <> GSecondSum) -> snd st = None -> snd (fold_left (shape_step ll c l) ops st) = None).
+  { induction ops as [|o ops IH]; intros st H E; [exact E|]. cbn [fold_left]. apply IH; [intros o' Ho'; apply H; now right|].
+    assert (o <> GSecondSum) by (apply H; now left). destruct o; cbn; try assumption; congruence. }
+  destruct (fold_left (shape_step ll c l) pre (LVec, None)) as [lay r] eqn:E.
+  assert (R0 : r = None) by (change r with (snd (lay, r)); rewrite <- E; apply P; [exact Hpre|reflexivity]). subst r.
+  cbn [app fold_left shape_step fst snd].
+  assert (Q : forall ops st v, (forall o, In o ops -> o <> GSecondSum /\ o <> GClipCoef /\ o <> GShapeCoef) -> snd st = Some v -> snd (fold_left (shape_step ll c l) ops st) = Some v).
+  { induction ops as [|o ops IH]; intros st v H Ev; [exact Ev|]. cbn [fold_left]. apply IH; [intros o' Ho'; apply H; now right|].
+    destruct (H o (or_introl eq_refl)) as (A & B & C). destruct o; cbn; try assumption; congruence. }
+  apply Q; [exact Hpost|]. cbn. destruct ll; reflexivity.
+Qed.
 (* without the reshape a column of losses is multiplied by (sum of ALL coefficients): no per-sample clipping *)
 Lemma rsum_scale (c : list R) y : rsum (map (fun cj => cj * y) c) = rsum c * y.
 Proof. induction c as [|x c IHc]; cbn [map rsum]; [ring | rewrite IHc; ring]. Qed.
